@@ -2523,3 +2523,16 @@ func specPoolReady(pConn *PFCPConn) bool {
 //@   ensures C01.shutdown.once: onceDone(&pConn.shutdownOnce)
 //@   ensures C05.shutdown.first: !old[bool](onceDone(&pConn.shutdownOnce)) ==> forall k uint64 :: !specHasSession(pConn, k)
 //@   ensures C01.shutdown.again: old[bool](onceDone(&pConn.shutdownOnce)) ==> glen("dp") == old[int](glen("dp")) && glen("gauge") == old[int](glen("gauge")) && (forall k uint64 :: specHasSession(pConn, k) <==> old[bool](specHasSession(pConn, k)))
+
+func specRepResp(msg message.Message) *message.SessionReportResponse {
+	return ptrAt[message.SessionReportResponse](dynRef(msg))
+}
+
+// handleSessionReportResponse (C01: any report response; C05: 'session context not found' ends the
+// session - datapath entries deleted, address and F-TEIDs returned, record removed).
+//@ func (pConn *PFCPConn) handleSessionReportResponse(msg message.Message) (err error)
+//@   requires sessionEnv(pConn) && specPoolReady(pConn) && msgWF(msg)
+//@   ensures C05.report.notfound: typeIs[*message.SessionReportResponse](msg) && specRepResp(msg).Cause != nil && specIEokCause(specRepResp(msg).Cause) && specIEvCause(specRepResp(msg).Cause) == ie.CauseSessionContextNotFound && old[bool](specHasSession(pConn, specMsgSEID(msg))) ==> !specHasSession(pConn, specMsgSEID(msg)) && glen("dp") == old[int](glen("dp"))+1 && gfield("dp.method", gentry("dp", old[int](glen("dp")))) == uint64(upfMsgTypeDel) && glen("gauge") == old[int](glen("gauge"))+1
+//@   ensures C05.report.ip: typeIs[*message.SessionReportResponse](msg) && specRepResp(msg).Cause != nil && specIEokCause(specRepResp(msg).Cause) && specIEvCause(specRepResp(msg).Cause) == ie.CauseSessionContextNotFound && old[bool](specHasSession(pConn, specMsgSEID(msg)) && specHasAllocPdr(specSession(pConn, specMsgSEID(msg)))) ==> !has(pConn.upf.ippool.inventory, specMsgSEID(msg))
+//@   ensures C05.report.other: !(typeIs[*message.SessionReportResponse](msg) && specRepResp(msg).Cause != nil && specIEokCause(specRepResp(msg).Cause) && specIEvCause(specRepResp(msg).Cause) == ie.CauseSessionContextNotFound && old[bool](specHasSession(pConn, specMsgSEID(msg)))) ==> glen("dp") == old[int](glen("dp")) && glen("gauge") == old[int](glen("gauge")) && (forall k uint64 :: specHasSession(pConn, k) <==> old[bool](specHasSession(pConn, k)))
+//@   ensures sessionEnv(pConn) && specPoolReady(pConn)
